@@ -372,6 +372,11 @@ def c06(ctx):
                 "{ok null}); distinct by (source text, document)")
     mc_api(ctx)
     mc_api(ctx, dev='{"InPlaceSortBy"}', negative=True, name="MC_Api_neg_InPlaceSortBy")
+    # Heap.tla: every in-place variant a built-in could have is OBSERVABLE on the C06 family (and not on a family of null documents)
+    C.model_check(ctx, "Heap", {"Dev": "{}", "Tier": ctx.tier, "Family": "C06"}, invariants=["AllObservable", "ErrorPath"], spec="Spec",
+                  name="Heap_observable_on_C06", workers=6)
+    C.model_check(ctx, "Heap", {"Dev": "{}", "Tier": ctx.tier, "Family": "C10k"}, invariants=["AllObservable"], spec="Spec",
+                  name="Heap_not_observable_on_null_documents", workers=6, negative=True)
     cats = ("docmod",)
     eval_family(ctx, "C06", {Q: (3, 1), T: (1, 1)}, cats=cats + ("outcome", "panic"))
     eval_family(ctx, "C09n", {Q: (3, 1), T: (1, 1)}, cats=cats, mc=False)
